@@ -101,9 +101,9 @@ def deep_stage(ck, checks, tag, which):
 
 
 def comb_stage(ck, checks, tag):
-    """Depression filling on a comb-shaped lake of 1.7 M nodes (3.4 M thorough), sampled nodes (BigGridTrace!TBigFill)."""
+    """Depression filling on comb-shaped lakes of 1.7 M nodes (3.4 M thorough), sampled nodes (BigGridTrace!TBigFill)."""
     q = ck.tier == "quick"
-    cases = list(cg.comb_cases(ck.seed + 800, tag, sizes=((1300, 1300),) if q else ((1300, 1300), (1100, 2600), (2600, 1300))))
+    cases = list(cg.comb_cases(ck.seed + 800, tag, sizes=((1300, 1300, 9), (1300, 1400, None)) if q else ((1300, 1300, 9), (1300, 1400, None), (1100, 2600, None), (2600, 1300, None), (1300, 1300, 1))))
     ck.traces(cases, checks, tag=tag, spec=BIG_SPEC, nontrivial=lambda c: True, timeout_ms=240000, sample_events=("BigFill",), nproc=2)
     ck.ev.cov["comb_lake_worlds"] = len(cases)
 
